@@ -174,7 +174,7 @@ class WorkerPool:
         del self.workers[w.slot]
 
     # ---------------------------------------------------------------- parent side
-    def map(self, payloads, on_result=None):
+    def map(self, payloads, on_result=None, deadline=None):
         """Run handler on each payload; returns list of results (payload order).
         A result may be replaced by ("fatal", text) if the worker failed outside a marked case."""
         self.start()
@@ -183,7 +183,12 @@ class WorkerPool:
         queue = list(range(len(payloads) - 1, -1, -1))
         pending = 0
         idle = [w for w in self.workers.values() if w.task is None]
+        self.deadline_hit = False
         while queue or pending:
+            if deadline is not None and queue and time.time() > deadline:
+                self.deadline_hit = True
+                del queue[:]  # undone payloads keep result None
+                continue
             while queue and idle:
                 w = idle.pop()
                 i = queue.pop()
